@@ -543,7 +543,11 @@ async fn stream_events(
         }
     };
 
+    #[cfg(rip_verif)]
+    rip_kernel::verif::point("sse.subscribe");
     let receiver = handle.subscribe();
+    #[cfg(rip_verif)]
+    rip_kernel::verif::point("sse.snapshot");
     let past = handle.events_snapshot().await;
 
     let last_seq = past.last().map(|event| event.seq);
@@ -1261,8 +1265,12 @@ async fn thread_stream_events(
     State(state): State<AppState>,
 ) -> impl IntoResponse {
     let store = state.engine.continuities();
+    #[cfg(rip_verif)]
+    rip_kernel::verif::point("sse.subscribe");
     let receiver = store.subscribe();
 
+    #[cfg(rip_verif)]
+    rip_kernel::verif::point("sse.snapshot");
     let past = match store.replay_events(&thread_id) {
         Ok(events) => events,
         Err(err) if err.kind() == std::io::ErrorKind::NotFound => {
@@ -1450,7 +1458,11 @@ async fn stream_task_events(
         }
     };
 
+    #[cfg(rip_verif)]
+    rip_kernel::verif::point("sse.subscribe");
     let receiver = handle.subscribe();
+    #[cfg(rip_verif)]
+    rip_kernel::verif::point("sse.snapshot");
     let past = handle.events_snapshot().await;
 
     let last_seq = past.last().map(|event| event.seq);
@@ -1705,6 +1717,85 @@ fn server_addr_from_env() -> Option<SocketAddr> {
         Err(err) => {
             eprintln!("invalid RIP_SERVER_ADDR={raw:?}: {err}; using default");
             None
+        }
+    }
+}
+
+/// Verification exports (compiled only with `--cfg rip_verif`).
+#[cfg(rip_verif)]
+pub mod verif_hooks {
+    use super::*;
+
+    /// A router plus handles for driving producers from outside: sessions and tasks registered
+    /// with the router's state, emitting through the real emitters.
+    pub struct VerifApp {
+        pub router: Router,
+        state: AppState,
+        event_log: Arc<rip_log::EventLog>,
+    }
+
+    impl VerifApp {
+        pub fn new(data_dir: std::path::PathBuf, workspace_root: std::path::PathBuf) -> Self {
+            let (router, openapi_json) = build_openapi_router();
+            let event_log = Arc::new(
+                rip_log::EventLog::new(data_dir.join("verif-events.jsonl")).expect("event log"),
+            );
+            let engine = Arc::new(
+                SessionEngine::new(data_dir, workspace_root, None).expect("session engine"),
+            );
+            let state = AppState {
+                sessions: Arc::new(Mutex::new(HashMap::new())),
+                tasks: Arc::new(Mutex::new(HashMap::new())),
+                engine,
+                openapi_json: Arc::new(openapi_json),
+                allow_pty_tasks: false,
+            };
+            let router = router
+                .route("/openapi.json", get(openapi_spec))
+                .with_state(state.clone());
+            Self {
+                router,
+                state,
+                event_log,
+            }
+        }
+
+        pub fn continuities(&self) -> Arc<crate::ContinuityStore> {
+            self.state.engine.continuities()
+        }
+
+        /// registers a fresh session (as `POST /sessions` does) and returns its handle
+        pub async fn register_session(&self) -> SessionHandle {
+            let handle = self.state.engine.create_session();
+            self.state
+                .sessions
+                .lock()
+                .await
+                .insert(handle.session_id.clone(), handle.clone());
+            handle
+        }
+
+        /// the real session `emit_event` for a registered session
+        pub async fn session_emit(&self, handle: &SessionHandle, event: rip_kernel::Event) {
+            crate::runner::verif_hooks::session_emit(handle, &self.event_log, event).await;
+        }
+
+        /// registers a fresh task (as `POST /tasks` does, without spawning a process)
+        pub async fn register_task(&self) -> crate::tasks::verif_hooks::VerifTask {
+            let payload = crate::tasks::TaskSpawnPayload {
+                tool: "bash".to_string(),
+                args: serde_json::json!({"command": "true"}),
+                title: None,
+                execution_mode: None,
+                origin_session_id: None,
+            };
+            let handle = self.state.engine.tasks().create_task(&payload);
+            self.state
+                .tasks
+                .lock()
+                .await
+                .insert(handle.task_id.clone(), handle.clone());
+            crate::tasks::verif_hooks::VerifTask::new(handle, self.event_log.clone())
         }
     }
 }
